@@ -108,7 +108,7 @@ def build_race():
             raise vcheck.Broken("go build -race of h_conc failed", out[-3000:])
 
 
-def hconc(args, race=False, timeout=900):
+def hconc(args, race=False, timeout=3600):
     env = vcheck.goenv()
     exe = os.path.join(BIN, "h_conc_race" if race else "h_conc")
     if race:
@@ -231,7 +231,7 @@ def dynamic(ctx, state_unfixed, record=True):
     meas["lin_rows"] = lin_rows
     # 2. stress under the race detector, with callers sharing LookupOptions values (also a shared LatestAnchor one)
     for shared in (False, True):
-        args = ["-mode", "stress", "-threads", "8", "-n", "800" if quick else "20000", "-seed", seed, "-timeout", "120"]
+        args = ["-mode", "stress", "-threads", "8", "-n", "800" if quick else "20000", "-seed", seed, "-timeout", "900"]
         if shared:
             args.append("-sharedlatest")
         rows, races = hconc(args, race=True, timeout=3000)
@@ -243,7 +243,7 @@ def dynamic(ctx, state_unfixed, record=True):
         if r.get("result") == "crashed":
             continue
         if r.get("result") != "done":
-            problems.append({"kind": "hang-or-deadlock", "where": "stress", "detail": {k: r.get(k) for k in ("result", "goroutines")}})
+            problems.append({"kind": "hang-or-deadlock", "where": "stress", "detail": {k: r.get(k) for k in ("result", "deadlock_confirmed", "why", "goroutines")}})
             continue
         excus = shared and state_unfixed   # only the run that shares a LatestAnchor options value can show F7
         for rp in races:
@@ -288,6 +288,68 @@ def dynamic(ctx, state_unfixed, record=True):
     if r.get("torn") or r.get("errors"):
         problems.append({"kind": "lookup-observed-partial-batch", "detail": meas["batch"], "first": r.get("first_torn"),
                          "explain": "Triples() returned more than 0 and fewer than all triples of a single AddTriples call on a fresh graph"})
+    # 3c. statement level: goroutines parse + plan + execute INSERT / DELETE / SELECT / join statements on one store
+    #     (disjoint name spaces => every outcome and the final contents must equal the sequential run of the same
+    #     lists and the set model); under the race detector, and once under GOMAXPROCS=1 (the planner's own fan-out
+    #     must not deadlock on a one-processor machine)
+    meas["stmt"] = []
+    stmt_runs = [(["-threads", "6", "-n", "40" if quick else "400"], True),
+                 (["-threads", "4", "-n", "30" if quick else "300", "-procs", "1"], False)]
+    if not quick:
+        stmt_runs += [(["-threads", "8", "-n", "200", "-seed", str(ctx.seed + 7)], True),
+                      (["-threads", "3", "-n", "200", "-procs", "1", "-seed", str(ctx.seed + 7)], True)]
+    for extra, race in stmt_runs:
+        args = ["-mode", "stmt"] + extra + ([] if "-seed" in extra else ["-seed", seed])
+        rows, races = hconc(args, race=race)
+        r = rows[-1]
+        meas["stmt"].append({k: r.get(k) for k in ("result", "threads", "gomaxprocs", "statements", "by_kind", "failed_stages",
+                                                   "result_mismatches", "final_size", "final_missing", "final_foreign",
+                                                   "sequential_matches_model", "select_rows", "join_rows", "deadlock_confirmed")}
+                            | {"race_reports": len(races), "race": race})
+        where = "stmt " + " ".join(extra)
+        if r.get("result") == "hang":
+            problems.append({"kind": "statements-deadlock", "where": where, "deadlock_confirmed": r.get("deadlock_confirmed"),
+                             "gomaxprocs": r.get("gomaxprocs"), "why": r.get("why"), "goroutines": str(r.get("goroutines"))[:2500],
+                             "explain": "BQL statements (INSERT/DELETE/SELECT/two-clause join) run from several goroutines on one "
+                                        "store never finish: every goroutine is blocked, nothing is runnable"})
+            continue
+        if r.get("result") == "crashed":
+            continue
+        for rp in races:
+            problems.append({"kind": "data-race", "where": where, "report": rp})
+        if r.get("result_mismatches") or r.get("final_missing") or r.get("final_foreign") or r.get("final_error"):
+            problems.append({"kind": "concurrent-statements-differ-from-sequential", "where": where, "first": r.get("first"),
+                             "failed_stages": r.get("failed_stages"), "missing": r.get("missing_sample"),
+                             "foreign": r.get("foreign_sample"),
+                             "explain": "statements of different goroutines touch disjoint nodes, so each outcome and the final "
+                                        "graph must be those of running the same lists one after the other"})
+        if r.get("sequential_failures") or not r.get("sequential_matches_model", True):
+            problems.append({"kind": "sequential-statement-run-disagrees-with-set-model", "where": where,
+                             "detail": meas["stmt"][-1]})
+    # 3d. sized read-only run: a dozen subjects of 600 triples, overlapping TriplesForSubject / Objects /
+    #     PredicatesForSubject / TriplesForPredicate with tiny channels and slow consumers, more goroutines than
+    #     processors; every delivered listing (order included) must equal the single-goroutine listing
+    meas["sized"] = []
+    for race in (True, False):
+        rows, races = hconc(["-mode", "sized", "-threads", "8", "-n", "10" if quick else "150", "-procs", "2", "-seed", seed],
+                            race=race)
+        r = rows[-1]
+        meas["sized"].append({k: r.get(k) for k in ("result", "threads", "gomaxprocs", "calls", "mismatches", "nil_elements",
+                                                    "panics", "errors", "subjects", "triples_per_subject")}
+                             | {"race_reports": len(races), "race": race})
+        if r.get("result") == "hang":
+            problems.append({"kind": "hang-or-deadlock", "where": "sized", "deadlock_confirmed": r.get("deadlock_confirmed"),
+                             "goroutines": str(r.get("goroutines"))[:2500]})
+            continue
+        if r.get("result") == "crashed":
+            continue
+        for rp in races:
+            problems.append({"kind": "data-race", "where": "sized", "report": rp})
+        if r.get("mismatches") or r.get("nil_elements") or r.get("panics") or r.get("errors"):
+            problems.append({"kind": "overlapping-large-lookups-corrupt-each-other", "detail": meas["sized"][-1],
+                             "first": r.get("first"),
+                             "explain": "a lookup of >= 512 results delivered nil / foreign / missing elements or panicked while "
+                                        "another large lookup ran at the same time (read-only graph)"})
     rows, _ = hconc(["-mode", "replay"])
     rep = rows[-1]
     meas["replay"] = {k: rep.get(k) for k in ("reproduced", "b_error", "a_error", "b_closed", "b_equals_a", "options_after")}
@@ -317,10 +379,11 @@ def fill_cov(ctx, meas, fx):
             seen.add(r.get("digest") or vcheck.case_hash(r))
     stress_ops = sum((s.get("ops") or 0) for s in meas.get("stress", []))
     ctx.cov["evaluations"] = len(lin_rows) + stress_ops + (meas.get("sharedlo", {}).get("calls") or 0) + \
-        (meas.get("selftest", {}).get("ops") or 0) + (meas.get("batch", {}).get("reads") or 0)
+        (meas.get("selftest", {}).get("ops") or 0) + (meas.get("batch", {}).get("reads") or 0) + \
+        sum((x.get("statements") or 0) for x in meas.get("stmt", [])) + sum((x.get("calls") or 0) for x in meas.get("sized", []))
     ctx.cov["distinct_nontrivial"] = len(seen)
     ctx.cov["rule"] = ("evaluations = recorded concurrent histories (lin rounds) + stress operations under the race detector + "
-                       "shared-options calls + sequential self-test operations + batch-probe reads; distinct_nontrivial counts lin histories only: "
+                       "shared-options calls + sequential self-test operations + batch-probe reads + concurrently executed BQL statements + sized lookups; distinct_nontrivial counts lin histories only: "
                        "distinct by sha1 of the per-goroutine operation sequences, non-trivial = at least one pair of operations "
                        "of different goroutines overlaps in real time AND (a lookup returned a non-empty result OR the history "
                        "contains store-level operations)")
@@ -335,7 +398,7 @@ def fill_cov(ctx, meas, fx):
                       "nonempty_lookups": sum(r.get("nonempty_lookups", 0) for r in lin_rows),
                       "error_classes": merge_counts(r.get("errors") or {} for r in lin_rows),
                       "summaries": meas.get("lin_summaries")}
-    for k in ("selftest", "stress", "sharedlo", "batch", "replay", "replay_writer"):
+    for k in ("selftest", "stress", "sharedlo", "batch", "stmt", "sized", "replay", "replay_writer"):
         ctx.cov[k] = meas.get(k)
     ctx.cov["generated_table"] = fx
     ctx.cov["checker_cmd"] = ("work/bin/genlocks -o coq/Conc/Gen/LockFactsGen.v (cwd=/repo); coqc -Q coq/Conc BWConc "
